@@ -458,7 +458,10 @@ Inductive tmpl :=
 | TMoveRegion (t : op) (r : nat)
 | TInlineRegion (t : op) (r : nat) (bp : bpoint)
 | TNotify (t : op)
-| TCreateBlock (id : block) (bp : bpoint) (tys : list Z).
+| TCreateBlock (id : block) (bp : bpoint) (tys : list Z)
+(* `rewriter.name_hint = ...` (Builder property, reset by the walker before every match): not a
+   rewriting call; name hints are not part of the modelled IR, so nothing observable changes *)
+| TSetHint (on : bool).
 
 Definition att_blocks (c : cir) : list block := g_subblocks c root.
 Definition att_op (c : cir) (t : op) : bool := mem t (g_attached c) && negb (Nat.eqb t root).
@@ -638,6 +641,7 @@ Definition resolve (c : cir) (r : rw) (tm : tmpl) : option action :=
   | TNotify t => if att_op c t then Some (ANotify t) else None
   | TCreateBlock id bp tys =>
       if bp_ok c bp && negb (amem (c_blks c) id) then Some (ACreateBlock id bp tys) else None
+  | TSetHint _ => None
   end.
 
 (* guards are evaluated when the match starts *)
